@@ -4,18 +4,20 @@
 
    Vocabulary.  [ops] is ANY list of calls (any length) with [hist_ok sempty ops = true]:
    every call is well-formed w.r.t. the grids that should be present at that moment
-   ([okb]: new distinct grids are added; an interface is new, joins two distinct present
-   subdomains that are not joined yet, its dimension exceeds neither neighbour's,
-   co-dimension <= 2; a removed / replaced subdomain is present; a replacement grid is new
-   and of the same dimension) or is of a kind the container must reject ([rejb]: adding a
-   present subdomain, adding an existing interface, co-dimension > 2, removing or replacing
-   an absent subdomain).  [final ops] is the container (the five dictionaries) after the
+   ([okb]: new distinct grids are added; an interface is new, joins two present
+   subdomains (possibly one subdomain with itself) that are not joined yet, its dimension
+   exceeds neither neighbour's, co-dimension <= 2; a removed / replaced subdomain is
+   present; a replacement grid is new and of the same dimension) or is of a kind the
+   container must reject ([rejb]: adding a present subdomain or one grid twice in one call,
+   adding an existing interface, co-dimension > 2, removing or replacing an absent
+   subdomain).  [final ops] is the container (the five dictionaries) after the
    history, [present ops] the subdomains / interfaces that should then be present
    (rejected calls have no effect).  [glt a b]: a has larger dimension than b, or the same
    dimension and a smaller creation id. *)
-From Coq Require Import List Arith Permutation Sorted.
+From Coq Require Import List Arith Bool Permutation Sorted.
 Import ListNotations.
-From PP Require Import Model.C24 Model.C24_spec Proofs.C24_sort Proofs.C24_inv Proofs.C24.
+From PP Require Import Model.C24 Model.C24_spec Model.C24_data Proofs.C24_sort Proofs.C24_inv
+  Proofs.C24 Proofs.C24_query Proofs.C24_data.
 
 (* No well-formed call raises; every rejected call raises its documented exception
    (outcome list of the whole history). *)
@@ -49,14 +51,14 @@ Theorem C24_listing_sorted_unique :
 Proof. exact thm_listing. Qed.
 Print Assumptions C24_listing_sorted_unique.
 
-(* Every interface that should be present joins two distinct present subdomains;
+(* Every interface that should be present joins present subdomains;
    interface_to_subdomain_pair returns exactly these two, the higher-dimensional (for
-   equal dimensions: the older) first; subdomain_pair_to_interface maps the pair, in
-   either order, back to the interface. *)
+   equal dimensions: the older) first (for a self-coupled subdomain: twice that one);
+   subdomain_pair_to_interface maps the pair, in either order, back to the interface. *)
 Theorem C24_pair_roundtrip :
   forall ops i a b, hist_ok sempty ops = true -> In (i, (a, b)) (pI (present ops)) ->
-    a <> b /\ In a (pS (present ops)) /\ In b (pS (present ops)) /\
-    exists hi lo, intf_pair (final ops) i = Ok (hi, lo) /\ glt hi lo /\
+    In a (pS (present ops)) /\ In b (pS (present ops)) /\
+    exists hi lo, intf_pair (final ops) i = Ok (hi, lo) /\ (a <> b -> glt hi lo) /\
                   ((hi = a /\ lo = b) \/ (hi = b /\ lo = a)) /\
                   pair_to_intf (final ops) a b = Ok i /\ pair_to_intf (final ops) b a = Ok i.
 Proof. exact thm_pairs. Qed.
@@ -116,10 +118,78 @@ Theorem C24_stored_pair_contains :
 Proof. exact thm_tch. Qed.
 Print Assumptions C24_stored_pair_contains.
 
-(* Non-vacuity: a history with grids of all dimensions, interfaces of co-dimension 1,
-   a rejected co-dimension-3 interface, a rejected re-addition, replacement and removal of
-   a 0-d subdomain (the calls that raised KeyError before the repair) and removal of a
-   subdomain that carries an interface. *)
+(* boundaries(dim) lists the boundary grids (those of C24_one_boundary_grid) exactly once,
+   sorted, whenever the container is empty or holds a positive-dimensional subdomain; when
+   all subdomains are 0-d it raises ValueError (documented behaviour of the method). *)
+Theorem C24_boundaries_listing :
+  forall ops d, hist_ok sempty ops = true ->
+    ((pS (present ops) = [] \/ exists s, In s (pS (present ops)) /\ 0 < fst s) ->
+     exists L, boundaries (final ops) d = Ok L /\
+               Permutation L (dim_filter d (bgs (final ops))) /\
+               NoDup L /\ StronglySorted glt L) /\
+    (pS (present ops) <> [] -> (forall s, In s (pS (present ops)) -> fst s = 0) ->
+     boundaries (final ops) d = Err ValueErr).
+Proof. exact thm_boundaries. Qed.
+Print Assumptions C24_boundaries_listing.
+
+(* interfaces(dim, codim), for any co-dimension attributes [cm] of the mortar grids. *)
+Theorem C24_interfaces_codim_listing :
+  forall cm ops d c, hist_ok sempty ops = true ->
+    exists L, interfaces_cd cm (final ops) d c = Ok L /\
+              Permutation L (codim_filter cm c (dim_filter d (map fst (pI (present ops))))) /\
+              NoDup L /\ StronglySorted glt L.
+Proof. exact thm_interfaces_cd. Qed.
+Print Assumptions C24_interfaces_codim_listing.
+
+(* neighboring_subdomains(s, only_higher, only_lower): ValueError when both flags are
+   set; otherwise the other ends of the interfaces of s ([neigh_raw] on the pairs that
+   should be present; s itself for a self-coupling), filtered by dimension, once each,
+   sorted. *)
+Theorem C24_neighbours :
+  forall ops s hi lo, hist_ok sempty ops = true ->
+    (hi && lo = true -> neighbours (final ops) s hi lo = Err ValueErr) /\
+    (hi && lo = false ->
+     exists L, neighbours (final ops) s hi lo = Ok L /\
+               Permutation L (nb_filter s hi lo (neigh_raw s (pI (present ops)))) /\
+               NoDup L /\ StronglySorted glt L).
+Proof. exact thm_neighbours. Qed.
+Print Assumptions C24_neighbours.
+
+(* Data dictionaries (Model/C24_data: [runD] runs the container together with the record
+   of which dictionary object is stored under which key; [tok_ok keys m n]: every key has
+   a dictionary created by the container (token < n) and no two keys share one).  After
+   any history every present subdomain and every present interface has a dictionary of
+   its own. *)
+Theorem C24_data_own_dictionary :
+  forall ops, hist_ok sempty ops = true ->
+    fst (runD empty dempty ops) = final ops /\
+    tok_ok (pS (present ops)) (vS (final_data ops)) (nd (final_data ops)) /\
+    tok_ok (map fst (pI (present ops))) (vI (final_data ops)) (nd (final_data ops)).
+Proof. exact thm_data. Qed.
+Print Assumptions C24_data_own_dictionary.
+
+(* Replacing subdomain o by the new grid n (same dimension) after any history: n gets
+   o's dictionary, every other subdomain and every interface keeps its own, and the
+   dictionary of o's boundary grid is handed on to the boundary grid created for n. *)
+Theorem C24_data_follows_replacement :
+  forall ops o n, hist_ok sempty ops = true ->
+    In o (pS (present ops)) -> ~ In n (pS (present ops)) -> fst n = fst o ->
+    let g := final ops in let d := final_data ops in
+    let d' := stepD g d (Replace [] [(o, n)]) in
+    lookup n (vS d') = lookup o (vS d) /\
+    (forall k, k <> n -> lookup k (vS d') = lookup k (vS d)) /\
+    vI d' = vI d /\
+    (forall bgo, 0 < fst o -> sd_to_bg g o = Some bgo ->
+                 vB d' = copy bgo (fst n - 1, nbg g) (vB d)) /\
+    (fst o = 0 -> vB d' = vB d).
+Proof. exact thm_data_replace. Qed.
+Print Assumptions C24_data_follows_replacement.
+
+(* Non-vacuity: a history with grids of all dimensions, interfaces of co-dimension 1, a
+   subdomain coupled to itself, a rejected co-dimension-3 interface, a rejected
+   re-addition and a rejected duplicate, replacement and removal of a 0-d subdomain and
+   of the self-coupled subdomain (the calls that failed before the repairs) and removal
+   of a subdomain that carries an interface. *)
 Example C24_nonvacuous :
   let ops := [AddSd [(2, 1); (1, 2); (0, 3); (3, 0)];
               AddIntf (1, 0) (1, 2) (2, 1);
@@ -127,25 +197,45 @@ Example C24_nonvacuous :
               AddIntf (0, 2) (3, 0) (0, 3);
               Replace [] [((0, 3), (0, 4))];
               AddSd [(2, 1)];
-              RemoveSd (2, 1);
+              AddSd [(1, 7); (1, 7)];
+              AddIntf (1, 3) (2, 1) (2, 1);
+              Replace [] [((2, 1), (2, 5))];
+              RemoveSd (2, 5);
               RemoveSd (0, 4)] in
   hist_ok sempty ops = true /\
-  snd (run empty ops) = [Done; Done; Done; Raised ValueErr; Done; Raised ValueErr; Done; Done] /\
+  snd (run empty ops) = [Done; Done; Done; Raised ValueErr; Done; Raised ValueErr;
+                         Raised ValueErr; Done; Done; Done; Done] /\
   pS (present ops) = [(1, 2); (3, 0)] /\ pI (present ops) = [] /\
   subdomains (final ops) None = Ok [(3, 0); (1, 2)] /\
-  s2b (final ops) = [((1, 2), (0, 1)); ((3, 0), (2, 2))] /\
-  (let ops5 := firstn 5 ops in
-   pI (present ops5) = [((1, 0), ((1, 2), (2, 1))); ((0, 1), ((0, 4), (1, 2)))] /\
-   intf_pair (final ops5) (0, 1) = Ok ((1, 2), (0, 4)) /\
-   interfaces (final ops5) None = Ok [(1, 0); (0, 1)]).
+  boundaries (final ops) None = Ok [(2, 2); (0, 1)] /\
+  (let ops9 := firstn 9 ops in
+   pI (present ops9) = [((1, 0), ((1, 2), (2, 5))); ((0, 1), ((0, 4), (1, 2)));
+                        ((1, 3), ((2, 5), (2, 5)))] /\
+   intf_pair (final ops9) (0, 1) = Ok ((1, 2), (0, 4)) /\
+   intf_pair (final ops9) (1, 3) = Ok ((2, 5), (2, 5)) /\
+   interfaces (final ops9) None = Ok [(1, 0); (1, 3); (0, 1)] /\
+   interfaces_cd [((1, 3), 0)] (final ops9) None (Some 1) = Ok [(1, 0); (0, 1)] /\
+   neighbours (final ops9) (2, 5) false false = Ok [(2, 5); (1, 2)] /\
+   neighbours (final ops9) (1, 2) false true = Ok [(0, 4)] /\
+   neighbours (final ops9) (1, 2) true true = Err ValueErr).
 Proof. vm_compute. repeat split; reflexivity. Qed.
 
-(* Outside the theorems' domain (documented, not claimed): an interface coupling a
-   subdomain with itself is not well-formed; removing the last subdomain while it carries
-   one raises AssertionError after the subdomain has been deleted. *)
-Example C24_self_coupled_outside_domain :
-  let ops := [AddSd [(1, 0)]; AddIntf (0, 0) (1, 0) (1, 0); RemoveSd (1, 0)] in
-  hist_ok sempty ops = false /\
-  snd (run empty ops) = [Done; Done; Raised AssertErr] /\
-  sds (final ops) = [] /\ intfs (final ops) = [(0, 0)].
+(* boundaries() with 0-d subdomains only (second clause of C24_boundaries_listing). *)
+Example C24_boundaries_0d :
+  let ops := [AddSd [(0, 0); (0, 1)]] in
+  hist_ok sempty ops = true /\ boundaries (final ops) None = Err ValueErr.
+Proof. vm_compute. split; reflexivity. Qed.
+
+(* Data dictionaries: the replacement grid inherits the dictionary (token 1) of the grid
+   it replaces, also through two replacements; removal and re-addition gives a new one. *)
+Example C24_data_nonvacuous :
+  let ops := [AddSd [(2, 0); (1, 1)]; AddIntf (1, 0) (2, 0) (1, 1);
+              Replace [] [((1, 1), (1, 2))]; Replace [] [((1, 2), (1, 3)); ((2, 0), (2, 4))];
+              RemoveSd (1, 3); AddSd [(1, 1)]] in
+  hist_ok sempty ops = true /\
+  data_of (sds (final ops)) (vS (final_data ops)) = [((2, 4), Some 0); ((1, 1), Some 5)] /\
+  data_of (bgs (final ops)) (vB (final_data ops)) = [((1, 4), Some 2); ((0, 5), Some 6)] /\
+  (let ops4 := firstn 4 ops in
+   data_of (sds (final ops4)) (vS (final_data ops4)) = [((1, 3), Some 1); ((2, 4), Some 0)] /\
+   data_of (intfs (final ops4)) (vI (final_data ops4)) = [((1, 0), Some 4)]).
 Proof. vm_compute. repeat split; reflexivity. Qed.
